@@ -1986,6 +1986,9 @@ func (fr *Frame) atCallAsserts(c *ssa.CallCommon, callee *ssa.Function, args []V
 		if !x.active(cl) || !contains(names, cl.Names[0]) {
 			continue
 		}
+		if cl.Loop != 0 && cl.Loop != fr.callSiteOrdinal(cl.Names[0], c) {
+			continue
+		}
 		env := fr.rootEnv(st)
 		env.lookup = func(name string) (SV, bool) { return fr.resolveLocalAt(name, st) }
 		for i, a := range args {
@@ -2088,6 +2091,9 @@ func (x *X) havocGhostOf(st *State, a Value) {
 		if g.Sort != "ObjIntArray" && g.Sort != "ObjSet" {
 			continue // only ghost state indexed by object identity
 		}
+		if g.Init == "owned" {
+			continue
+		}
 		srt := (&Env{x: x}).sortByName(g.Sort)
 		cur := x.heapRead(st, "ghost:"+name, srt)
 		x.heapSet(st, "ghost:"+name, x.B.Store(cur, key, x.B.Fresh("gh_"+name, srt.V)))
@@ -2127,7 +2133,7 @@ func (w *World) ghostMods(fn *ssa.Function) []string {
 						}
 						if len(ct.Touches) > 0 {
 							for g, gv := range w.Specs.Ghosts {
-								if gv.Sort == "ObjIntArray" || gv.Sort == "ObjSet" {
+								if (gv.Sort == "ObjIntArray" || gv.Sort == "ObjSet") && gv.Init != "owned" {
 									gm["ghost:"+g] = true
 								}
 							}
@@ -2180,4 +2186,36 @@ func contentsHeapNameExt(n string, ct *Contract, c *ssa.CallCommon) string {
 		}
 	}
 	return "E:"
+}
+
+// callSiteOrdinal: position (from 1) of call c among the calls of the named
+// callee in this function, in source order.
+func (fr *Frame) callSiteOrdinal(name string, c *ssa.CallCommon) int {
+	var poss []token.Pos
+	for _, b := range fr.fn.Blocks {
+		for _, in := range b.Instrs {
+			ci, ok := in.(ssa.CallInstruction)
+			if !ok {
+				continue
+			}
+			cc := ci.Common()
+			var ns []string
+			if sc := cc.StaticCallee(); sc != nil {
+				ns = append(ns, shortFuncName(sc), externName(sc))
+			}
+			if cc.IsInvoke() {
+				ns = append(ns, "("+types.TypeString(types.Unalias(cc.Value.Type()), nil)+")."+cc.Method.Name())
+			}
+			if contains(ns, name) {
+				poss = append(poss, cc.Pos())
+			}
+		}
+	}
+	sort.Slice(poss, func(i, j int) bool { return poss[i] < poss[j] })
+	for i, p := range poss {
+		if p == c.Pos() {
+			return i + 1
+		}
+	}
+	return 0
 }
